@@ -34,7 +34,7 @@ WITNESS_MIXED = 'witness-mixed'
 
 
 def plan(tier, seed):
-    n_int, n_rep = (1500, 1200) if tier == 'quick' else (60000, 50000)
+    n_int, n_rep = (900, 800) if tier == 'quick' else (60000, 50000)
     items = [{'k': WITNESS_MIXED}]
     for i in range(n_int):
         items.append({'k': 'interleave', 'regime': ('same', 'mixed+switch', 'mixed')[i % 3]})
@@ -43,11 +43,20 @@ def plan(tier, seed):
     items += [{'k': 'longhaul'}] * (8 if tier == 'quick' else 400)
     # rolling rebuilds: at EVERY tick of a window a brand-new instance is built from the architectural state and memory alone and both take the
     # same step (hidden per-step state that a rebuilt instance cannot have is exposed at whichever tick it matters, not only at a lucky snapshot)
-    items += [{'k': 'rolling'}] * (240 if tier == 'quick' else 9000)
+    items += [{'k': 'rolling'}] * (200 if tier == 'quick' else 9000)
     # hash-seed runs: the same case executed in fresh interpreters under other PYTHONHASHSEED values (hash randomisation is the one source of
     # nondeterminism a pure-Python library can pick up without importing anything)
     items += [{'k': 'hashseed'}] * (16 if tier == 'quick' else 600)
-    return items
+    # kinds interleaved evenly over the plan (a run cut short by its time budget still holds every kind in proportion); the witness stays first
+    by = {}
+    for it in items[1:]:
+        by.setdefault(it['k'] + it.get('regime', ''), []).append(it)
+    keyed = []
+    for k in sorted(by):
+        n = len(by[k])
+        keyed += [((j + 0.5) / n, k, j) for j in range(n)]
+    keyed.sort()
+    return items[:1] + [by[k][j] for _, k, j in keyed]
 
 
 # ------------------------------------------------------------------ generation
@@ -65,7 +74,52 @@ def _simple_regime(rng, cfg):
     return {'cpsr': cpsr, 'sys': sys, 'R': G.random_regfile(rng, cfg), 'spsr': G.random_spsrs(rng, cfg)}
 
 
+def _deny_core(rng, cfg, nt):
+    """the set-up of C14's deny sweep as a C20 core: PMSA, MPU on, a no-access and a privileged-only block in the data page, every register
+    re-aimed before each tick at the (also unaligned) edges of those blocks, load/store-heavy words: accesses that abort half-way through"""
+    from scenarios import c14
+    thumb = rng.getrandbits(1)                 # (the configuration is used as it is: instances of one run may have to share it)
+    mpu = [(0, 0, 0)] * cfg['number_of_mpu_regions']
+    mpu[0] = (1 | 31 << 1, 0, 3 << 8)
+    mpu[c14.DREG] = (1 | 10 << 1, c14.SW_DENY, rng.getrandbits(6))
+    mpu[c14.DREG - 1] = (1 | 7 << 1, c14.SW_PRIV, 1 << 8 | rng.getrandbits(6))
+    devices = G.std_devices()
+    G.set_data(devices[2], 0x700, bytes(rng.getrandbits(8) for _ in range(0x200)))
+    sys = dict(G.mpu_sys(mpu, nu=rng.getrandbits(1)))
+    sys['sctlr'] = G.sctlr_value(m=1, a=0, u=1, te=thumb, v=0, br=1, ee=0)
+    regs = {'cpsr': G.random_cpsr(rng, cfg, mode=rng.choice(['usr', 'svc', 'svc', 'sys', 'irq']), thumb=thumb, e=0) | 0xC0, 'pc': G.CODE, 'sys': sys,
+            'R': G.random_regfile(rng, cfg), 'spsr': G.random_spsrs(rng, cfg, valid=True)}
+    ptrs = [c14.SW_DENY + d for d in (-32, -16, -12, -8, -4, -3, -2, -1, 0, 1, 4)] + [c14.SW_DENY + 0x7FD, c14.SW_DENY + 0x7FE, 8, 0x10, c14.SW_PRIV - 2, c14.SW_PRIV + 0x41, c14.SW_PRIV + 0xFE]
+    words = []
+    while len(words) < nt:
+        r_ = rng.random()
+        if r_ < 0.6:
+            w = c14.ldst_word(rng, thumb)
+            words.append(G._t16(w) if thumb else w)
+        elif r_ < 0.7:
+            words += G.macro(rng, thumb)
+        else:
+            words.append(G.stream_word(rng, float(thumb)))
+    events = [{'tick': rng.randrange(1, nt), 'core': 0, 'kind': rng.choice(['irq', 'fiq'])} for _ in range(rng.randrange(0, 3))]
+    events.sort(key=lambda e: e['tick'])
+    return {'config': cfg, 'devices': devices, 'regs': regs, 'words': words[:nt], 'force': {'it': 0, 'ctx': 9, 'thumb': thumb, 'ptr_regs': ptrs}, 'events': events, 'no_poke': []}
+
+
 def _core(rng, cfg, nt):
+    if rng.random() < 0.2 and cfg['memory_system_architecture'] == 'PMSA' and not cfg.get('have_virt_ext') and cfg.get('number_of_mpu_regions', 0) >= 12:
+        return _deny_core(rng, cfg, nt)
+    core = _core0(rng, cfg, nt)
+    if rng.random() < 0.3:
+        # overlapping windows: a small overlay listed before the data page it covers, another over a piece of the code page (which device answers
+        # an address is a function of the list order alone - never of which device answered last)
+        ov = {'kind': 'ram', 'begin': G.DATA + 0x300, 'end': G.DATA + 0x500}
+        G.set_data(ov, 0, bytes(rng.getrandbits(8) for _ in range(0x200)))
+        cov = {'kind': 'ram', 'begin': G.CODE + 0x40, 'end': G.CODE + 0x80}
+        core['devices'][:0] = [ov, cov]
+    return core
+
+
+def _core0(rng, cfg, nt):
     devices = G.std_devices()
     G.set_data(devices[2], 0x3C0, bytes(rng.getrandbits(8) for _ in range(0x80)))
     G.host_call_blocks(devices[2])
@@ -235,7 +289,8 @@ def gen(item, rng, tier):
     order = rng.choice(['lockstep', 'orig-first', 'orig-first', 'copies-first'])
     if rng.random() < 0.15:
         # a data device of 1 MiB or more (it shadows the smaller windows behind it): copies of large memories must be as private as small ones
-        core['devices'][2]['end'] = core['devices'][2]['begin'] + rng.choice([1 << 20, 1 << 21])
+        dd = next(d for d in core['devices'] if d['begin'] == G.DATA)
+        dd['end'] = dd['begin'] + rng.choice([1 << 20, 1 << 21])
     if item['k'] == 'rolling':
         return {'scenario': 'rolling', 'cores': [core], 's': rng.randrange(0, max(1, nt - 40)), 'k': rng.choice([24, 40, 64])}
     return {'scenario': 'replay', 'cores': [core], 's': s, 'k': k, 'order': order}
@@ -246,7 +301,7 @@ def gen_hashseed(rng):
     including a small window listed BEFORE a larger one that covers it (first match must win in every interpreter)"""
     cfg = _cfg(rng)
     nt = rng.choice([40, 80])
-    core = _core(rng, cfg, nt)
+    core = _core0(rng, cfg, nt)
     devs = core['devices']
     # the data page is shadowed by an 'overlay' window listed first, with other contents
     ov = {'kind': 'ram', 'begin': G.DATA + 0x300, 'end': G.DATA + 0x500}
@@ -698,6 +753,7 @@ def run_longhaul(case):
 
 
 def run(case):
+    solo._ensure()          # every kind: the pristine zygote must exist before this process constructs its first instance (kinds are interleaved in the plan)
     p0 = M.env.print_count[0]
     if case['scenario'] == 'longhaul':
         res = run_longhaul(case)
